@@ -979,6 +979,10 @@ class KmipEngine(object):
     def _delete_attribute_from_managed_object(self, managed_object, attribute):
         attribute_name, attribute_index, attribute_value = attribute
         object_type = managed_object._object_type
+        if not self._attribute_policy.is_attribute_supported(attribute_name):
+            raise exceptions.ItemNotFound(
+                "The '{}' attribute is not supported.".format(attribute_name)
+            )
         if not self._attribute_policy.is_attribute_applicable_to_object_type(
             attribute_name,
             object_type
@@ -1857,6 +1861,12 @@ class KmipEngine(object):
                 attribute_index = attribute_index.value
             attribute_value = payload.attribute.attribute_value
 
+            if not self._attribute_policy.is_attribute_supported(
+                attribute_name
+            ):
+                raise exceptions.InvalidField(
+                    "The {0} attribute is unsupported.".format(attribute_name)
+                )
             if not self._attribute_policy.is_attribute_modifiable_by_client(
                 attribute_name
             ):
@@ -2233,6 +2243,10 @@ class KmipEngine(object):
                     # Verify that the attribute is applicable to the current
                     # object. If not, the object doesn't match, so skip it.
                     policy = self._attribute_policy
+                    if not policy.is_attribute_supported(name):
+                        raise exceptions.InvalidField(
+                            "The {0} attribute is unsupported.".format(name)
+                        )
                     if not policy.is_attribute_applicable_to_object_type(
                         name,
                         managed_object.object_type
